@@ -51,7 +51,7 @@ func scopeAlphabets() (forms, structure, core *progen.Alphabet) {
 		s2 = append(s2, "local a, b = b, a", "local b, a = 1, b")
 		alphaStruct = &progen.Alphabet{
 			Simple: s2, Last: progen.Expand([]string{"return %E"}, scopeNames, e3),
-			Heads1: append(progen.ExpandHeads([]string{"local function %N(%N)||end", "function %N(%N)||end", "do||end", "while %N do||end", "repeat||until %N",
+			Heads1: append(progen.ExpandHeads([]string{"local function %N(%N)||end", "function %N(%N)||end", "local %N = function(%N)||end", "do||end", "while %N do||end", "repeat||until %N",
 				"for %N = %N, 2 do||end", "for %N in %N do||end", "if %N then||end"}, scopeNames, e3),
 				progen.Head{Open: "for a, b in a do", Close: "end"}, progen.Head{Open: "for a, b in b do", Close: "end"}),
 			Heads2:   progen.ExpandHeads([]string{"if %N then|else|end", "if %N then|elseif %N then|end"}, scopeNames, e3),
